@@ -3,7 +3,9 @@
    Model.v (pointer-level ownership model: crew handle, MovedFrom state, manager carried by every block).
    The extracted model is run against the real containers on every ./check (T-cor). *)
 From Coq Require Import ZArith List Bool.
-From C14 Require Import PropagationModel Model Proofs Bodies BodiesProofs Crew.
+From MomoCommon Require Import GenPrelude.
+From C14 Require Import PropagationModel Model Proofs Bodies BodiesProofs Crew GenProofs.
+From C14 Require Gen_TreeSet Gen_HashSet Gen_HashMultiMap Gen_DataTable Gen_SetCrew Gen_CrewContract.
 Import ListNotations.
 Local Open Scope Z_scope.
 
@@ -530,3 +532,80 @@ Theorem C14_inline_swap_seeded_witness :
   icrew_swap_seeded false (mkIC 1) (mkIC 2) = (mkIC 2, mkIC 1).
 Proof. exact inline_swap_seeded_witness. Qed.
 Print Assumptions C14_inline_swap_seeded_witness.
+
+(* ---- (11) round 6: theorems about GENERATED code (cxx2coq, regenerated from /repo's headers on every run) ---------------- *)
+(* The crew accessors the containers call begin with MOMO_ASSERT(!null) -- read off the clang AST -- and pvIsNull is the
+   null test of the data pointer: this is the callee contract under which calls into the crew were translated. *)
+Theorem C14_gen_crew_contract :
+  (forall f, In f ptr_accessors_used -> In f Gen_CrewContract.SetCrewPtr_asserting) /\
+  Gen_CrewContract.SetCrewPtr_plain = setcrew_plain_members /\
+  (forall f, In f valuecrew_accessors_used -> In f Gen_CrewContract.ValueCrew_asserting) /\
+  Gen_CrewContract.ValueCrew_plain = crew_plain_members /\
+  (forall f, In f tablecrew_accessors_used -> In f Gen_CrewContract.Crew_asserting) /\
+  Gen_CrewContract.Crew_plain = crew_plain_members /\
+  Gen_CrewContract.SetCrewInline_asserting = [] /\
+  (forall mData, Gen_SetCrew.pvIsNull mData = Z.eqb mData 0).
+Proof. exact crew_contract. Qed.
+Print Assumptions C14_gen_crew_contract.
+
+(* FRAME on the generated TreeSet::Clear / TreeSet::pvDestroy() / HashSet::Clear(shrink) / HashMultiMap::Clear /
+   DataTable::Clear: in the moved-from state (crew null, storage pointers null) each returns normally, for every value of
+   the other fields and arguments, without reaching any crew access, and leaves the fields unchanged. *)
+Theorem C14_gen_moved_from_frame :
+  forall cnt cap shrink,
+    Gen_TreeSet.Clear true cnt 0 0 = GenPrelude.Ok (tt, cnt, 0, 0) /\
+    Gen_TreeSet.pvDestroy true cnt 0 0 = GenPrelude.Ok tt /\
+    Gen_HashSet.Clear true cnt cap 0 shrink = GenPrelude.Ok (tt, cnt, cap, 0) /\
+    Gen_HashMultiMap.Clear true cnt = GenPrelude.Ok (tt, cnt) /\
+    Gen_DataTable.Clear true = GenPrelude.Ok tt.
+Proof. exact gen_moved_from_frame. Qed.
+Print Assumptions C14_gen_moved_from_frame.
+
+(* generated TreeSet::Clear with a live crew: never stuck, root and node params end null, count 0 unless it returned
+   early on an already storage-less tree; the destructor body never sticks either *)
+Theorem C14_gen_tree_clear_owned :
+  forall cnt root params,
+    exists cnt', Gen_TreeSet.Clear false cnt root params = GenPrelude.Ok (tt, cnt', 0, 0) /\
+                 (cnt' = 0 \/ (root = 0 /\ params = 0 /\ cnt' = cnt)) /\
+    Gen_TreeSet.pvDestroy false cnt root params = GenPrelude.Ok tt.
+Proof. exact gen_tree_clear_owned. Qed.
+Print Assumptions C14_gen_tree_clear_owned.
+
+(* generated HashSet::Clear(shrink) with a live crew *)
+Theorem C14_gen_hash_clear_owned :
+  forall cnt cap bk shrink,
+    exists cnt' cap' bk', Gen_HashSet.Clear false cnt cap bk shrink = GenPrelude.Ok (tt, cnt', cap', bk') /\
+      (bk = 0 -> cnt' = cnt /\ cap' = cap /\ bk' = 0) /\
+      (bk <> 0 -> cnt' = 0 /\ (shrink = true -> cap' = 0 /\ bk' = 0) /\ (shrink = false -> cap' = cap /\ bk' = bk)).
+Proof. exact gen_hash_clear_owned. Qed.
+Print Assumptions C14_gen_hash_clear_owned.
+
+(* non-vacuity of the obligations: with storage present the crew IS needed *)
+Theorem C14_gen_needs_crew_when_owning :
+  forall cnt root params, (root <> 0 \/ params <> 0) ->
+    Gen_TreeSet.Clear true cnt root params = GenPrelude.Stuck /\ Gen_TreeSet.pvDestroy true cnt root params = GenPrelude.Stuck.
+Proof. exact gen_tree_needs_crew_when_owning. Qed.
+Print Assumptions C14_gen_needs_crew_when_owning.
+
+Theorem C14_gen_hash_needs_crew_when_owning :
+  forall cnt cap bk shrink, bk <> 0 -> Gen_HashSet.Clear true cnt cap bk shrink = GenPrelude.Stuck.
+Proof. exact gen_hash_needs_crew_when_owning. Qed.
+Print Assumptions C14_gen_hash_needs_crew_when_owning.
+
+Theorem C14_gen_multi_table_clear :
+  (forall cnt, Gen_HashMultiMap.Clear true cnt = GenPrelude.Ok (tt, cnt) /\ Gen_HashMultiMap.Clear false cnt = GenPrelude.Ok (tt, 0)) /\
+  (Gen_DataTable.Clear true = GenPrelude.Ok tt /\ Gen_DataTable.Clear false = GenPrelude.Ok tt).
+Proof. exact (conj gen_multi_clear gen_table_clear). Qed.
+Print Assumptions C14_gen_multi_table_clear.
+
+(* REFINEMENT: the hand model's cc_clear (Model.v) succeeds exactly when the generated Clear of the same kind does not get
+   stuck on the abstracted fields (crew null <-> MovedFrom, storage pointer null <-> no body block), and leaves no items *)
+Theorem C14_clear_refines_generated :
+  forall c w, cc_wf c ->
+    is_ok (cc_clear KTree c w) = gen_ok (Gen_TreeSet.Clear (crew_null_of c) (count_of c) (storage_of c) (storage_of c)) /\
+    is_ok (cc_clear KHash c w) = gen_ok (Gen_HashSet.Clear (crew_null_of c) (count_of c) (count_of c) (storage_of c) true) /\
+    is_ok (cc_clear KMulti c w) = gen_ok (Gen_HashMultiMap.Clear (crew_null_of c) (count_of c)) /\
+    is_ok (cc_clear KTable c w) = gen_ok (Gen_DataTable.Clear (crew_null_of c)) /\
+    (forall k c' w', cc_clear k c w = Ok c' w' -> items_of c' = []).
+Proof. exact clear_refines_generated. Qed.
+Print Assumptions C14_clear_refines_generated.
